@@ -22,6 +22,12 @@ CHECKS = {
    text="Generated expressions over the literal syntax (boundary integers, floats, strings, and/or with falsy/truthy operands, comparison chains, in, ~, lists, tuples, maps, negated literals, filters/functions with literal keyword arguments) are rendered as written and with every (sampled beyond 6 leaves) subset of literal leaves replaced by variables bound to the engine's own value for that literal; text and error-ness must agree. `{% if false %}{{ E }}{% endif %}` must load and render empty.",
    note="Lazy sequence repetitions with astronomically large counts are excluded from the generator (printing them never ends; a hang is not this property's subject).",
    design="3/C04"),
+ "C05": dict(
+   technique="property-based testing with path enumeration: generated skeletons of nested scoped constructs with break/continue at every accepted position, every control-flow path driven through context booleans and list lengths, state-balance invariant observed through the verif_hooks monitor plus sentinel/scope/escape probes in the output",
+   level="exploration",
+   text="For each generated program all assignments of its condition booleans and loop lengths (up to 160, else sampled) are rendered in .txt and .html; per path the feature-guarded balance monitor (frame depth, capture depth, auto-escape stack and operand stack equal at entry and normal exit of every instruction-stream evaluation; no foreign frame/capture popped) must stay silent, markers written after every top-level construct must reach the output in order, the escape mode and outer variables must be as before, inner assignments of isolating constructs must be gone.",
+   note="Paths are complete only for programs with at most 160 assignments. The reference-interpreter comparison of whole outputs is part of C03.",
+   design="3/C05"),
  "C07": dict(
    technique="property-based testing: law checking (reflexive/antisymmetric/transitive/eq-cmp-hash agreement) over generated value triples biased to same-value-different-representation twins; metamorphic agreement of template operators; algebraic laws of sort/unique/groupby/batch/slice/reverse/min/max over generated inputs with hidden identities; both map implementations",
    level="exploration",
